@@ -93,7 +93,7 @@ def build_env(rnd):
     return env
 
 
-def build_program(rnd, env, exprs, directive=".dword"):
+def build_program(rnd, env, exprs, directive=".dword", repeated=()):
     from vlib import apm
     base = rnd.choice([0o1000, 0, 0o2000, 0o100000, 0o40000])
     before = [apm.assign(c, apm.num(v)) for c, v in env["values"].items() if rnd.random() < 0.5]
@@ -114,6 +114,16 @@ def build_program(rnd, env, exprs, directive=".dword"):
     stmts += [apm.label("7$"), apm.blk(".blkb", apm.num(2 * rnd.randrange(0, 20)))]
     for e in exprs[half:]:
         stmts.append(apm.data(directive, e))
+    for e in repeated:
+        # the expression in every copy of a repeat body, as an implicit word list or an explicit '.word': '.' differs from copy to copy
+        masked = ("bin", "&", ("grp", e), apm.num(0o177777))
+        if rnd.random() < 0.6:
+            op, k = rnd.choice([("/", 2), ("/", 3), ("%", 7), (">>", 1), ("<<", 1), ("*", 3)])
+            masked = ("bin", "&", ("grp", ("bin", op, ("grp", ("bin", "+", ("grp", ("bin", "&", ("grp", e), apm.num(0o7777))), ("dot",))), apm.num(k))), apm.num(0o177777))
+        body = [rnd.choice([apm.wordlist, lambda *a: apm.data(".word", *a)])(apm.num(rnd.randrange(0x10000)), masked)]
+        if rnd.random() < 0.4:
+            body.append(apm.data(".byte", apm.num(1), apm.num(2)))
+        stmts.append(apm.repeat(apm.num(rnd.choice([2, 3, 4])), body))
     # la1 / la2 must be in another local scope only after the probes: put them at the end (ordinary labels end the scope)
     stmts += [apm.label("la1"), apm.data(".word", apm.num(2)), apm.label("la2")] + after
     if order.startswith("bottom"):
@@ -155,6 +165,12 @@ def run_shard(spec):
                 (good if verdict == "ok" else bad if verdict == "reject" else []).append(e)
             style_seed = rnd.randrange(1 << 30)
             cases = [{"kind": "batch", "prog": apm.to_json(build_program(rnd, env, good)), "style_seed": style_seed}] if good else []
+            plain = [e for e in good if not any(x[0] == "loc" for x in apm.walk(e))]
+            if plain:
+                rp = build_program(rnd, env, [], repeated=rnd.sample(plain, min(len(plain), 6)))
+                if classify(rp)[0] == "ok":
+                    cases.append({"kind": "batch", "prog": apm.to_json(rp), "style_seed": style_seed})
+                    cnt["repeat_batches"] = cnt.get("repeat_batches", 0) + 1
             for e in bad[:6]:
                 cases.append({"kind": "reject", "prog": apm.to_json(build_program(rnd, env, [e], rnd.choice([".dword", ".word"]))), "style_seed": style_seed})
             # the explicit rejection rules of the statement
@@ -235,7 +251,19 @@ def run_case(case, cnt=None, root=None):
             # detected one, the reference names the first in source order.  Both reject; which diagnostic comes first is not the property.
             verdict = "agree"
         if verdict == "violation":
-            out.append({"what": "expression value: " + "; ".join(msgs)[:1200], "case": case})
+            v = {"what": "expression value: " + "; ".join(msgs)[:1200], "case": case}
+            if o.cls == "ok" and msgs and msgs[0].startswith("the reference rejects this program"):
+                # listed finding: an erroneous operand of '*' whose co-factor is zero is never evaluated (the zero-coefficient term is
+                # dropped from the polynomial), so its error is not reported.  Recognised by the mechanism: the reference told to skip
+                # exactly those operands accepts the program and yields the assembler's bytes.
+                apm.ZERO_PRODUCT_SKIPS = True
+                try:
+                    v2, m2 = refcheck.compare(prog, o, {})
+                finally:
+                    apm.ZERO_PRODUCT_SKIPS = False
+                if v2 == "agree":
+                    v["known_key"] = "zero-product-unevaluated"
+            out.append(v)
         elif verdict == "unmodelled":
             out.append({"what": f"generator left the modelled fragment: {msgs}", "case": case})
         return out
